@@ -34,7 +34,7 @@ from bind import c02
 PROP = "C01"
 NEW = "zz"
 
-MAIN_GROUPS = ["core", "core2", "defnames", "targets", "comp", "calls", "decoys", "modules"]
+MAIN_GROUPS = ["core", "nest", "core2", "defnames", "targets", "comp", "calls", "decoys", "modules"]
 FEATURE_GROUPS = ["params", "stmts", "walrus", "lambda"]
 
 _ROOT = None
@@ -377,7 +377,10 @@ def main(tier):
     verdict = common.Verdict(PROP)
     rnd = common.rng("c01")
     groups = MAIN_GROUPS + FEATURE_GROUPS
-    per_group_quick = 700
+    per_group_cap = 700 if tier == "quick" else 6000      # thorough: a cap keeps the run inside its budget
+    if os.environ.get("PYSCOPE_CAP"):      # development aid: replay everything / another cap
+        per_group_cap = int(os.environ["PYSCOPE_CAP"])
+    capped = []
     tlc_stats = {}
     items = []
     states = transitions = 0
@@ -399,8 +402,9 @@ def main(tier):
         states += res.distinct
         transitions += res.generated
         behs.sort(key=lambda x: json.dumps(x, sort_keys=True))
-        if tier == "quick" and len(behs) > per_group_quick:
-            behs = rnd.sample(behs, per_group_quick)
+        if len(behs) > per_group_cap and not (tier == "quick" and ps.GROUPS[g].get("replay_all")):
+            capped.append("%s: %d of %d" % (g, per_group_cap, len(behs)))
+            behs = rnd.sample(behs, per_group_cap)
         for k, p in enumerate(behs):
             if k % 397 == 11:
                 p["_sample"] = True
@@ -454,7 +458,8 @@ def main(tier):
         "states": states, "transitions": transitions,
         "traces_validated_against_impl": replayed,
         "samples": samples or [{"note": "no sampled behaviour"}],
-        "exhaustive": tier == "thorough",
+        "exhaustive": tier == "thorough" and not capped,
+        "sampled_groups": capped,
         "distinct_nontrivial": tot["changed"],
         "rule": "one behaviour per Rename step of the TLC graph (program x binding); replayed with every token of "
                 "the binding as the query offset; non-trivial = the request changed the module text",
